@@ -58,8 +58,13 @@ theorem hole_part {V : Type} (nx ny : Nat) (hnx : 0 < nx) (regs : Nat → Nat) (
       · subst hr
         simp only [if_true]
         refine ⟨⟨hg.inr, hg.reg, hg.first, ?_, ?_, ?_⟩, hold.2⟩
-        · obtain ⟨c0, rest, e, hm0⟩ := hg.head
-          exact ⟨c0, rest ++ [c], by rw [e]; rfl, hm0⟩
+        · obtain ⟨c0, rest, e, hm0, hh⟩ := hg.head
+          refine ⟨c0, rest ++ [c], by rw [e]; rfl, hm0, ?_⟩
+          intro c' hc'
+          rcases List.mem_append.mp hc' with hc' | hc'
+          · exact hh c' hc'
+          · rw [List.mem_singleton.mp hc']
+            exact ⟨k, h1, hk, hne, hW⟩
         · intro c' hc'
           rcases List.mem_append.mp hc' with hc' | hc'
           · exact hg.cyc c' hc'
